@@ -16,9 +16,9 @@ from workload import BranchPredictionPolicy, Placement, Placements, TaskState  #
 
 class HostileScheduler(BaseScheduler):
     def __init__(self, seed=0, runtime=EventTime.zero(), lookahead=EventTime.zero(), retract_schedules=False,
-                 release_taskgraphs=False, cancel_rate=0.1, cancel_cond_children=False, batching=False, _flags=None):
+                 release_taskgraphs=False, cancel_rate=0.1, cancel_cond_children=False, batching=False, preemptive=False, _flags=None):
         super().__init__(
-            preemptive=False,
+            preemptive=preemptive,
             runtime=runtime,
             lookahead=lookahead,
             enforce_deadlines=False,
@@ -49,7 +49,24 @@ class HostileScheduler(BaseScheduler):
         out = []
         seen = set()
         for t in tasks:
-            if t.id in seen or t.state not in (TaskState.VIRTUAL, TaskState.RELEASED, TaskState.SCHEDULED):
+            if t.id in seen:
+                continue
+            if t.state == TaskState.RUNNING and self.preemptive:
+                # preemption / migration decisions for running tasks (never for a task that finishes before the
+                # answer is applied: its TASK_FINISHED would precede the TASK_PREEMPT)
+                seen.add(t.id)
+                if t.remaining_time <= self.runtime or r.random() < 0.6:
+                    continue
+                if r.random() < 0.3:
+                    out.append(Placement.create_task_placement(task=t))  # preempt, never resumed by this policy
+                else:
+                    pool = r.choice(pools)
+                    when = sim_time + self.runtime + EventTime(r.choice([0, 0, 2]), EventTime.Unit.US)
+                    out.append(Placement.create_task_placement(
+                        task=t, placement_time=when, worker_pool_id=pool.id,
+                        execution_strategy=r.choice(list(t.available_execution_strategies))))
+                continue
+            if t.state not in (TaskState.VIRTUAL, TaskState.RELEASED, TaskState.SCHEDULED):
                 continue
             if t.state == TaskState.SCHEDULED and t.expected_start_time <= sim_time + self.runtime:
                 # the pending placement fires before this answer is applied: leave it alone
@@ -100,4 +117,47 @@ class HostileScheduler(BaseScheduler):
                     task=t, placement_time=when, worker_pool_id=pool.id, worker_id=wid, execution_strategy=strat
                 )
             )
+        return Placements(runtime=self.runtime, true_runtime=EventTime.zero(), placements=out)
+
+
+class ScriptedScheduler(BaseScheduler):
+    """Plays a fixed script: `script` = list of invocations; invocation k (0-based, only invocations that happen
+    at or after its `at` time consume it) = {"at": t, "decs": [{"task": "<name>@<graph>", "do": "place"|"unplaced"|
+    "cancel", "pool": i, "worker": j or 0, "strategy": k, "time": t}]}.  Decisions for tasks that do not exist yet or
+    have already started are dropped.  Used by directed worlds to force rare interleavings exactly."""
+
+    def __init__(self, script, runtime=EventTime.zero(), lookahead=EventTime.zero(), retract_schedules=False,
+                 release_taskgraphs=False, _flags=None):
+        super().__init__(preemptive=False, runtime=runtime, lookahead=lookahead, enforce_deadlines=False,
+                         policy=BranchPredictionPolicy.ALL, retract_schedules=retract_schedules,
+                         release_taskgraphs=release_taskgraphs, _flags=_flags)
+        self._script = list(script)
+        self._next = 0
+
+    def schedule(self, sim_time, workload, worker_pools):
+        workload.get_schedulable_tasks(sim_time, self.lookahead, self.preemptive, self.retract_schedules, worker_pools,
+                                       self.policy, self.branch_prediction_accuracy, self.release_taskgraphs)
+        out = []
+        now = sim_time.to(EventTime.Unit.US).time
+        if self._next < len(self._script) and self._script[self._next].get("at", 0) <= now:
+            inv = self._script[self._next]
+            self._next += 1
+            pools = list(worker_pools.worker_pools)
+            for d in inv["decs"]:
+                name, graph = d["task"].split("@", 1)
+                tg = workload.get_task_graph(graph)
+                t = tg.get_task(name) if tg is not None else None
+                if t is None or t.state not in (TaskState.VIRTUAL, TaskState.RELEASED, TaskState.SCHEDULED):
+                    continue
+                if d["do"] == "cancel":
+                    out.append(Placement.create_task_cancellation(task=t))
+                elif d["do"] == "unplaced":
+                    out.append(Placement.create_task_placement(task=t))
+                else:
+                    pool = pools[d.get("pool", 1) - 1]
+                    wid = pool.workers[d["worker"] - 1].id if d.get("worker") else None
+                    strat = list(t.available_execution_strategies)[d.get("strategy", 1) - 1]
+                    when = EventTime(max(d.get("time", now), now + self.runtime.to(EventTime.Unit.US).time), EventTime.Unit.US)
+                    out.append(Placement.create_task_placement(task=t, placement_time=when, worker_pool_id=pool.id,
+                                                               worker_id=wid, execution_strategy=strat))
         return Placements(runtime=self.runtime, true_runtime=EventTime.zero(), placements=out)
